@@ -55,7 +55,7 @@ def gen_case(rng, tier, idx):
         ini = _dy0(rng, nN, allow_zero=False) if rng.random() < 0.8 else _dy0(rng, nN)
         cfg = dict(what='exec', As=[_dy0(rng, nA) for _ in range(nN)],
                    Ns=[[[_dy0(rng, nN) for _ in range(nO)] for _ in range(nA)] for _ in range(nN)], ini=ini,
-                   rollouts=rng.randint(1, 4), cap=rng.choice((2, 4, 8)), start=rng.choice([None] + list(range(nS))))
+                   rollouts=rng.randint(1, 4), cap=rng.choice((2, 4, 8)) if rng.random() < 0.985 else 900, start=rng.choice([None] + list(range(nS))))
     elif u < 0.96:
         cfg = dict(what='bpi', nodes=rng.randint(1, 3), iterations=rng.randint(2, 10), seed=rng.choice((0, 1, 2, 3, 17, 12345)))
     else:
@@ -74,7 +74,7 @@ def execute(case, script=None):
     pv = POMDPView(case['spec'])
     ctx = RunCtx(PROP, None)
     ctx.declare_probes('exec_histories', 'multi_node_stochastic', 'evaluator_checked', 'absorbing_with_reward', 'bpi_runs', 'bpi_tables',
-                       'bpi_node_added', 'ga_runs', 'low_probability_action_taken')
+                       'bpi_node_added', 'ga_runs', 'low_probability_action_taken', 'execution_longer_than_700_steps')
     sched = make_scheduler(case, script, ctx)
     try:
         cfg = case['cfg']
@@ -154,6 +154,8 @@ def _exec(pv, cfg, ctx, sched):
         except Exception as e:
             raise Violation('exception', f"{tag}: run_on raised {type(e).__name__}: {e}")
         ctx.probe('exec_histories')
+        if len(tr) > 700:
+            ctx.probe('execution_longer_than_700_steps')
         # "running that controller from each (node, state) pair": the execution starts where it was told to
         try:
             first = sid[tr[0].state]
@@ -176,7 +178,7 @@ def _exec(pv, cfg, ctx, sched):
                 raise Violation('result-shape', f"{tag}: malformed step {t}: {type(e).__name__}: {e}")
             ref = beta @ As
             ctx.check(np.allclose(ref, impl, atol=1e-9), 'history-probability',
-                      lambda: f"{tag}, step {t}: after history {[(aid[x.action], oid[x.observation]) for x in tr[:t]]} the executed controller "
+                      lambda: f"{tag}, step {t}: after history {('... ' if t > 8 else '') + str([(aid[x.action], oid[x.observation]) for x in tr[max(0, t - 8):t]])} the executed controller "
                       f"chooses actions with probabilities {impl.tolist()}, the controller defines {ref.tolist()}",
                       key='history-probability' + ('/multi-node' if nN > 1 else ''))
             ctx.check(s not in pv.absorbing and pv.T[s, a].get(ns, 0) > 0 and pv.Ob[a, ns].get(o, 0) > 0 and st.reward == pv.R[s, a, ns]
